@@ -13,12 +13,15 @@ for line in k['fixed']:
         e = by.setdefault(m.group(2), {'props': [], 'note': m.group(3)})
         if m.group(1) not in e['props']:
             e['props'].append(m.group(1))
+# reverts that no longer apply because a later fix touches the same lines;
+# each has a hand-written equivalent in the catalogue
+SKIP = {'80ae5d1'}      # -> c10-revert-private-params
 out = []
 for line in subprocess.check_output(
         ['git', '-C', '/repo', 'log', '--reverse', '--format=%h %s'],
         text=True).splitlines():
     h, subj = line.split(' ', 1)
-    if subj.startswith('fix:') and h in by:
+    if subj.startswith('fix:') and h in by and h not in SKIP:
         out.append({'id': 'revert-' + h, 'revert': h, 'props': by[h]['props'],
                     'note': subj + ' -- ' + by[h]['note'][:300]})
 json.dump(out, open(os.path.join(V, 'mutants', 'c00-reverts.json'), 'w'),
